@@ -173,6 +173,50 @@ def inputs(ctx):
     for lens, rows in (([36, 5, 5], [15, 2, 15]), ([5, 5, 36], [15, 2, 15]), ([5, 36, 5, 34], [3, 9, 3, 9])):
         ins.append({"id": "w%d" % n, "lines": popon_stream(rng, [list(lens)], False, rows_override=rows), "doubled": n % 2 == 0})
         n += 1
+    # where a row is put says nothing about its length: rows that start at a column (preamble indent),
+    # alone or as a second burst on the row another burst already wrote to - also when the burst would
+    # run past the right edge of the screen - are judged by the characters sent, like any other row
+    def burst(r, c, k):
+        return [{"k": "PAC", "r": r, "c": c, "i": False}] + _chars(_text(rng, k))
+    shapes = [[(15, 8, 28)], [(15, 4, 29)], [(15, 28, 5)], [(15, 28, 4)], [(15, 16, 16)], [(2, 8, 28), (3, 0, 10)],
+              [(14, 0, 10), (15, 8, 28)],
+              [(15, 0, 4), (15, 16, 16)], [(15, 0, 4), (15, 16, 20)], [(15, 0, 20), (15, 20, 24)], [(15, 0, 4), (15, 8, 24)],
+              [(3, 0, 12), (3, 12, 20)], [(3, 0, 12), (3, 16, 20), (4, 0, 5)], [(15, 0, 4), (15, 16, 33)], [(15, 8, 33)]]
+    for sh in shapes:
+        for mode in ("pop", "paint", "roll"):
+            syms = []
+            for (r, c, k) in sh:
+                syms += burst(r if mode != "roll" else 15, c, k)
+            if mode == "pop":
+                lines = [{"tc": _tc(300), "drop": False, "syms": [{"k": "ENM"}, {"k": "RCL"}] + syms + [{"k": "EOC"}]},
+                         {"tc": _tc(600), "drop": False, "syms": [{"k": "EDM"}]}]
+            elif mode == "paint":
+                lines = [{"tc": _tc(300), "drop": False, "syms": [{"k": "RDC"}] + syms}, {"tc": _tc(600), "drop": False, "syms": [{"k": "EDM"}]}]
+            else:
+                lines = [{"tc": _tc(300), "drop": False, "syms": [{"k": "RU", "n": 2}, {"k": "CR"}] + syms},
+                         {"tc": _tc(600), "drop": False, "syms": [{"k": "CR"}]}]
+            for doubled in (False, True):
+                ins.append({"id": "c%d" % n, "lines": lines, "doubled": doubled})
+                n += 1
+    # what one document's scan found must not reach the next read in the same process: a screen whose
+    # short piece is followed by a piece with a long line (refused), then a document that holds only
+    # the short piece (fine) - and the other way round
+    short = _chars([ord(c) for c in "Short one"])
+    for long_len in (36, 40):
+        longrow = _chars(_text(rng, long_len))
+        for order in ("short-first", "long-first"):
+            pieces = [[{"k": "PAC", "r": 12, "c": 0, "i": False}] + short, [{"k": "PAC", "r": 15, "c": 0, "i": False}] + longrow]
+            if order == "long-first":
+                pieces.reverse()
+            bad = [{"tc": _tc(300), "drop": False, "syms": [{"k": "ENM"}, {"k": "RCL"}] + pieces[0] + pieces[1] + [{"k": "EOC"}]},
+                   {"tc": _tc(600), "drop": False, "syms": [{"k": "EDM"}]}]
+            good = [{"tc": _tc(300), "drop": False, "syms": [{"k": "ENM"}, {"k": "RCL"}, {"k": "PAC", "r": 12, "c": 0, "i": False}] + short + [{"k": "EOC"}]},
+                    {"tc": _tc(600), "drop": False, "syms": [{"k": "EDM"}]}]
+            for doubled in (False, True):
+                ins.append({"id": "h%d" % n, "lines": good, "before": [bad], "doubled": doubled})
+                n += 1
+                ins.append({"id": "h%d" % n, "lines": bad, "before": [bad, good], "doubled": doubled})
+                n += 1
     for k in range(300 if ctx.quick else 60000):
         mode = rng.choice(["pop", "pop", "roll", "paint"])
         lens = [rng.choice([rng.randrange(0, 41), 31, 32, 33]) for _ in range(rng.randrange(1, 5))]
@@ -195,6 +239,12 @@ def execute(inp):
     import pycaption
     text, abs_lines = sccgen.render_program(inp["lines"], inp["doubled"])
     obs = {"ok": False, "err": "", "named": [], "caps": []}
+    for earlier in inp.get("before", []):
+        # documents read earlier in this process (their results are judged as inputs of their own)
+        try:
+            pycaption.SCCReader().read(sccgen.render_program(earlier, inp["doubled"])[0])
+        except Exception:
+            pass
     try:
         cs = pycaption.SCCReader().read(text, simulate_roll_up=True) if inp.get("sim") else pycaption.SCCReader().read(text)
         obs["ok"] = True
